@@ -236,6 +236,8 @@ def explore(chk, g, n_seeds, per_seed, tag, sweep=False):
         out_m = core.run_driver(["loadmsg %s" % ("-" if too_deep(k) else (w.hex() or "-")) for k, w in uniq])
         out_a = core.run_driver(["load %s" % ("-" if too_deep(k) else (w[20:].hex() or "-")) for k, w in uniq])
         for (kind, w), om, oa in zip(uniq, out_m, out_a):
+            if chk.saturated(40):
+                break                # a badly broken decoder: every further hang costs the full watchdog time
             for api, fn, data, model, can in (("DiameterMessage.load", DiameterMessage.load, w, om, c02.canon_msgs),
                                              ("DiameterAVP.load", DiameterAVP.load, w[20:], oa,
                                               lambda avps: c02.canon_msgs([]) [:0] + "ok " + " ".join(c02.canon_avp(a) for a in avps[:20000]))):
@@ -355,7 +357,10 @@ def explore_worker(chk, cases, tag):
     old = signal.signal(signal.SIGALRM, _alarm)
     try:
         lines, runs = [], []
+        hangs = 0
         for kind, carry, w in jobs:
+            if hangs >= 10:
+                break
             if carry is None:
                 first, second = w
                 a1, l1, c1, e1 = worker_iteration(first)
@@ -368,6 +373,8 @@ def explore_worker(chk, cases, tag):
             else:
                 lines.append("wstep - %s" % (w.hex() or "-"))
                 runs.append((kind, w, b"", worker_iteration(w)))
+            if runs and runs[-1][3][0] == "hang":
+                hangs += 1
         out = core.run_driver(lines)
         for (kind, w, carry, (alive, locked, carry2, enq)), om in zip(runs, out):
             inp = {"op": "worker-iteration", "mutation": kind.split("=")[0], "carried": carry.hex(), "hex": w.hex()}
@@ -421,6 +428,8 @@ def explore_node(chk, cases, rng, tag):
             twins.append(("vendor-twin=%d" % code, m.dump()))
     n_ticked = 0
     for kind, w in list(cases) + twins:
+        if chk.saturated(40):
+            break
         try:
             msgs = DiameterMessage.load(w)
         except BaseException as e:
